@@ -1,49 +1,57 @@
-use lattices::ght::lattice::{DeepJoinLatticeBimorphism};
-use lattices::ght::{GeneralizedHashTrieNode};
-use lattices::ght::colt::ColtForestNode;
-use lattices::{GhtType, IsBot, LatticeBimorphism, Merge, Pair, PairBimorphism};
-use lattices::map_union::{MapUnionHashMap, KeyedBimorphism};
-use lattices::set_union::{SetUnionHashSet};
-use variadics::variadic_collections::VariadicHashSetStd;
-use variadics::{var_expr, var_type};
-use std::collections::{HashMap, HashSet};
+//! hv_ght: harness for C08 (generalized hash tries) and C07 (bimorphism laws).
+//! `hv_ght <c08|c07> --seed N --cases N --out DIR --tier quick|thorough [--replay FILE]`
+mod ght;
+mod morph;
+use hv_common::{Args, Recorder};
+
+fn replay(path: &std::path::PathBuf, rec: &mut Recorder, run: &dyn Fn(u64, &str, &[String], &mut Recorder)) {
+    let lines = hv_common::read_lines(path);
+    let mut cur: Vec<String> = vec![];
+    let mut tag = String::new();
+    let mut no = 0u64;
+    let mut started = false;
+    for l in lines {
+        if let Some(rest) = l.strip_prefix("#case ") {
+            if started {
+                run(no, &tag, &cur, rec);
+                cur.clear();
+            }
+            started = true;
+            let mut it = rest.splitn(2, ' ');
+            no = it.next().unwrap().parse().unwrap_or(0);
+            tag = it.next().unwrap_or("").to_string();
+        } else if started {
+            cur.push(l);
+        }
+    }
+    if started {
+        run(no, &tag, &cur, rec);
+    }
+}
 
 fn main() {
-    type A = GhtType!(u32, u64 => &'static str: VariadicHashSetStd);
-    let a = A::new_from(vec![var_expr!(1u32, 1u64, "x")]);
-    let b = A::new_from(vec![var_expr!(1u32, 2u64, "y")]);
-    type Out = var_type!(u32, u64, &'static str, &'static str);
-    type Bim = <(A, A) as DeepJoinLatticeBimorphism<VariadicHashSetStd<Out>>>::DeepJoinLatticeBimorphism;
-    let mut bim = <Bim as Default>::default();
-    let out = bim.call(&a, &b);
-    let def = bim.call(&A::default(), &A::default());
-    println!("F7 rows={} eq_default={} cmp={:?} isbot={} {}", out.recursive_iter().count(), out == def, out.partial_cmp(&def), out.is_bot(), def.is_bot());
-    // partial_cmp panic
-    let r = std::panic::catch_unwind(|| {
-        let a = A::new_from(vec![var_expr!(1u32, 1u64, "x")]);
-        let b = A::new_from(vec![var_expr!(2u32, 1u64, "x")]);
-        a.partial_cmp(&b)
-    });
-    println!("cmp disjoint keys: {:?}", r.map_err(|_| "panic"));
-    let r = std::panic::catch_unwind(|| {
-        let a = A::new_from(vec![var_expr!(1u32, 1u64, "x"), var_expr!(1u32, 1u64, "y"), var_expr!(2u32, 1u64, "x")]);
-        let b = A::new_from(vec![var_expr!(1u32, 1u64, "x"), var_expr!(2u32, 1u64, "x"), var_expr!(2u32, 1u64, "z")]);
-        a.partial_cmp(&b)
-    });
-    println!("cmp greater+less: {:?}", r.map_err(|_| "panic"));
-    // forced flag
-    type L = GhtType!(() => u32, u32: VariadicHashSetStd);
-    let mut l = L::new_from(vec![var_expr!(1u32, 1u32)]);
-    let f = l.force_drain().unwrap();
-    println!("forced leaf rows={} eq_default={} cmp={:?} forced_rows={}", l.recursive_iter().count(), l == L::default(), l.partial_cmp(&L::default()), f.recursive_iter().count());
-    // Keyed(Pair) with bottom
-    type S = SetUnionHashSet<u32>;
-    type M = MapUnionHashMap<u32, S>;
-    let a: M = M::new(HashMap::new());
-    let a2: M = M::new(HashMap::from([(1u32, S::new(HashSet::new()))]));
-    let bb: M = M::new(HashMap::from([(1u32, S::new(HashSet::from([7u32])))]));
-    let mut kb = KeyedBimorphism::<HashMap<u32, Pair<S, S>>, _>::new(PairBimorphism);
-    let lhs = kb.call(Merge::merge_owned(a.clone(), a2.clone()), bb.clone());
-    let rhs = Merge::merge_owned(kb.call(a.clone(), bb.clone()), kb.call(a2.clone(), bb.clone()));
-    println!("keyed pair: a==a2 {} lhs={:?} rhs={:?} eq={}", a == a2, lhs, rhs, lhs == rhs);
+    let args = Args::parse();
+    hv_common::quiet_panics();
+    match args.mode.as_str() {
+        "c08" => {
+            let mut rec = Recorder::new(ght::RULE);
+            match &args.replay {
+                Some(p) => replay(p, &mut rec, &ght::run_case),
+                None => ght::generate(args.seed, args.cases, &args.tier, &mut rec),
+            }
+            rec.finish(&args.out);
+        }
+        "c07" => {
+            let mut rec = Recorder::new(morph::RULE);
+            match &args.replay {
+                Some(p) => replay(p, &mut rec, &morph::run_case),
+                None => morph::generate(args.seed, args.cases, &args.tier, &mut rec),
+            }
+            rec.finish(&args.out);
+        }
+        m => {
+            eprintln!("unknown mode {m}");
+            std::process::exit(2);
+        }
+    }
 }
